@@ -403,7 +403,7 @@ def jacobi_sum_clenshaw_der(s, alpha, beta, x, j=1, alphas=None):
         # more twisted notation - follow Forbes' paper, but our
         # idea of b and a are swapped
         a, *_ = recurrence_abc(M-jj, alpha, beta)
-        alphas[jj][M-jj] = j * a * alphas[jj-1][M-jj+1]
+        alphas[jj][M-jj] = jj * a * alphas[jj-1][M-jj+1]
         for n in range(M-jj-1, -1, -1):
             a, b, _ = recurrence_abc(n, alpha, beta)
             _, _, c = recurrence_abc(n+1, alpha, beta)
